@@ -22,6 +22,14 @@ relation of the property is checked on every instance the grid contains:
                       American binary at the barrier from below, s = m = -e:  1 - p <= e (0.8/w + 1)
                       (p'(s) = phi(d2)/w + e^s N(d1) + e^s phi(d1)/w <= 0.8/w + 1 for s <= 0).
 
+Family ``derivative_bound``: the same dominance / range / parity relations on BlackScholes(d).price() with all
+arguments omitted, for five derivatives sharing one scripted underlier, after the initial path set and after every
+round of ALL re-simulation histories (depth 2, thorough 3) over 5 routes (simulate() of three of the derivatives, the
+stock's simulate(), re-registered buffers), evaluated against the CURRENT buffers; incl. options struck at the
+money at inception with non-dyadic strikes (0.9, 1.03, 1.05, 1.3; every path starts exactly at the strike, so the
+American binary must be exactly 1 everywhere).  Barrier state and running maximum come from exact comparisons on the
+buffer values.
+
 Slack.  Each computed price carries a rounding error of at most tol = 32 eps(dtype) scale with
   scale_eu = S + K,  scale_bin = 1 + e^s,  scale_lb = (S + K + M)(1 + w)^2,  w = v sqrt(t)
 (derivation in mc/checks/c07.py; C07 confirms the implementation stays within it against the exact
@@ -427,6 +435,105 @@ def relations(ctx, block):
 
 
 # ----------------------------------------------------------------------------
+# derivative-bound module prices (arguments omitted), incl. re-simulation histories
+# ----------------------------------------------------------------------------
+
+ROUTES = ("sim_via_lookback", "sim_via_american_binary", "sim_via_european", "stock_simulate", "set_buffers")
+
+
+@family
+def derivative_bound(ctx, block):
+    """European call/put, European binary call, American binary and lookback on ONE scripted underlier, same strike,
+    each priced through BlackScholes(d).price() with all arguments omitted.  After the initial path set and after every
+    re-simulation round (new paths of the same shape via another derivative's simulate(), the stock's simulate(), or
+    re-registered buffers) the relations are evaluated against the CURRENT buffers (running maximum and barrier state
+    taken from the buffer values by exact comparison): lookback >= European call and >= max(M - K, 0); American binary
+    in [0, 1], >= European binary call, == 1 (bitwise) wherever the running maximum has reached the strike; C - P = S - K.
+    block: A, first (optional pinned first symbol), T, dt, sigma, strike, dtype, histories."""
+    import pfhedge.nn as nn
+    from mc.core import market
+    from mc.core.explore import all_paths
+    from mc.core.runner import HarnessError
+    dtype = DT[block["dtype"]]
+    eps = torch.finfo(dtype).eps
+    K, T, dt, sigma = block["strike"], block["T"], block["dt"], block["sigma"]
+    if float(torch.tensor(K, dtype=dtype)) != K:
+        raise HarnessError(f"strike {K} not representable in {block['dtype']}")
+    base = all_paths(block["A"], T, dtype=dtype, first=block.get("first"))
+    N = base.size(0)
+    if block.get("first") is None:
+        contents = [base, base.flip(0), base.roll(5, 0).flip(-1), base.flip(-1), base.roll(11, 0)]
+    else:   # keep the first column pinned to the strike: permute paths only
+        contents = [base, base.flip(0), base.roll(2, 0), base.roll(4, 0), base.roll(7, 0)]
+    kinds = {"european_call": ("european", True), "european_put": ("european", False), "binary_call": ("european_binary", True),
+             "american_binary": ("american_binary", True), "lookback": ("lookback", True)}
+    for hist in block["histories"]:
+        stock = market.primary("brownian", dtype=dtype, sigma=sigma, dt=dt)
+        holder = {"next": None}
+        market.ScriptedSimulate(stock, [lambda n, th, init: {"spot": holder["next"]}])
+        market.set_buffers(stock, spot=contents[0])
+        derivs = {nm: market.derivative(kind, stock, T=T, strike=K, call=c) for nm, (kind, c) in kinds.items()}
+        mods = {nm: nn.BlackScholes(d) for nm, d in derivs.items()}
+
+        def check_round(rnd):
+            route = "initial" if rnd == 0 else hist[rnd - 1]
+            mb = dict(block, histories=[hist[:rnd]])
+            live = slice(0, T - 1)
+            spot = stock.spot.to(F64)
+            P = {nm: m.price().to(F64)[:, live] for nm, m in mods.items()}
+            S = spot[:, live]
+            Mx = spot.cummax(dim=-1).values[:, live]               # exact on the buffer values
+            s = (S / K).log()
+            m = (Mx / K).log()
+            steps = torch.arange(T, dtype=F64) * dt
+            w = sigma * (steps[-1] - steps)[live].sqrt().unsqueeze(0)
+            tol_eu = C_TOL * eps * K * (1 + s.exp())
+            tol_bin = C_TOL * eps * (1 + s.exp())
+            tol_lb = C_TOL * eps * K * (1 + s.exp() + m.exp()) * (1 + w) ** 2
+            n = S.numel()
+
+            def flag(site, cls, bad, text, obs, exp):
+                ctx.tick(n, nontrivial=n if rnd else 0)
+                if bad.any():
+                    r, c = (int(x) for x in bad.nonzero()[0])
+                    ctx.violation(f"BlackScholes({site})", f"{cls}_after_{route}",
+                                  f"{text} after history {hist[:rnd]}: path {stock.spot[r].tolist()} step {c}, strike {K}",
+                                  observed=float(obs[r, c]), expected=exp if isinstance(exp, str) else float(exp[r, c]), block=mb)
+
+            lb, am, ec, ep, bc = P["lookback"], P["american_binary"], P["european_call"], P["european_put"], P["binary_call"]
+            flag("LookbackOption", "bound_lookback_below_european", ~(lb >= ec - tol_lb - tol_eu),
+                 "lookback price() < European call price()", lb, ec)
+            locked = (Mx - K).clamp(min=0)
+            flag("LookbackOption", "bound_lookback_below_locked_in", ~(lb >= locked - tol_lb),
+                 "lookback price() < locked-in payoff max(M - K, 0) of the CURRENT paths", lb, locked)
+            flag("AmericanBinaryOption", "bound_american_outside_unit_interval", ~((am >= -tol_bin) & (am <= 1 + tol_bin)),
+                 "American binary price() outside [0, 1]", am, "[0, 1]")
+            flag("AmericanBinaryOption", "bound_american_below_european_binary", ~(am >= bc - 2 * tol_bin),
+                 "American binary price() < European binary price()", am, bc)
+            hit = Mx >= K
+            ctx.add("barrier_reached_cells", int(hit.sum()))
+            flag("AmericanBinaryOption", "bound_american_not_one_after_hit", hit & ~(am == 1.0),
+                 "American binary price() != 1 although the running maximum of the CURRENT path has reached the strike", am, "1.0")
+            flag("EuropeanOption", "bound_parity", ~((ec - ep - (S - K)).abs() <= 2 * tol_eu + 4 * eps * (S + K)),
+                 "European call price() - put price() != S - K", ec - ep, S - K)
+
+        check_round(0)
+        for rnd, route in enumerate(hist, start=1):
+            holder["next"] = contents[rnd % len(contents)]
+            if route == "set_buffers":
+                market.set_buffers(stock, spot=holder["next"])
+            elif route == "stock_simulate":
+                stock.simulate(n_paths=N, time_horizon=(T - 1) * dt)
+            else:
+                derivs[{"sim_via_lookback": "lookback", "sim_via_american_binary": "american_binary",
+                        "sim_via_european": "european_call"}[route]].simulate(n_paths=N)
+            if not torch.equal(stock.spot, holder["next"]):
+                raise HarnessError(f"route {route} did not install the scripted paths")
+            check_round(rnd)
+    ctx.outcome(("bound", block["strike"], block["dtype"], len(block["histories"])))
+
+
+# ----------------------------------------------------------------------------
 
 def run(ctx):
     ctx.rule("full product grid log-moneyness x running max x t x v x K, one broadcast call per product; every "
@@ -473,3 +580,15 @@ def run(ctx):
         for s in _axis({"lo": -1.0, "hi": 1.0, "n": ctx.pick(21, 81)}):
             ctx.run("relations", {"s": [s], "m": [s], "t": T, "v": V, "K": K, "dtype": dname,
                                   "rels": ["unit_interval", "lookback_dominance", "american_dominance", "monotone_vol", "monotone_time"]})
+    # derivative-bound module prices with arguments omitted, over re-simulation histories
+    f32v = lambda x: float(torch.tensor(x, dtype=torch.float32))
+    hists = [list(h) for h in itertools.product(ROUTES, repeat=ctx.pick(2, 3))]
+    ctx.alphabet("re-simulation routes", list(ROUTES))
+    ctx.alphabet("at-the-money-at-inception strikes", [0.9, 1.03, 1.05, 1.3, "and their float32 roundings"])
+    for dname in ("float64", "float32"):
+        ctx.run("derivative_bound", {"A": [0.75, 1.0, 1.5], "T": 3, "dt": 0.25, "sigma": 0.25, "strike": 1.25, "dtype": dname,
+                                     "histories": hists})
+        for k0 in (0.9, 1.03, 1.05, 1.3):
+            Kx = k0 if dname == "float64" else f32v(k0)
+            ctx.run("derivative_bound", {"A": [Kx, 0.75, 1.5], "first": Kx, "T": 4, "dt": 0.125, "sigma": 0.5, "strike": Kx,
+                                         "dtype": dname, "histories": [list(h) for h in itertools.product(ROUTES, repeat=1)] + [[]]})
